@@ -19,7 +19,8 @@ json.dump(out, open('controls/seeds.json', 'w'), indent=1, ensure_ascii=False)
 props = [json.loads(l)['id'] for l in open('properties.jsonl')]
 ben = []
 for d in sorted(glob.glob('benign/*/')):
-    if os.path.exists(d + 'patch.diff'):
+    st = d + 'status.json'
+    if os.path.exists(d + 'patch.diff') and os.path.exists(st) and not json.load(open(st))['false_alarms'] and not json.load(open(st))['undecided']:
         ben.append({'id': 'benign-' + os.path.basename(d.rstrip('/')), 'properties': props, 'expect': [], 'why': 'behaviour-preserving refactoring (negative control): no new violation may appear', 'patch': d + 'patch.diff', 'benign': True, 'suite': 'survives'})
 json.dump(ben, open('controls/benign.json', 'w'), indent=1, ensure_ascii=False)
 print(len(out), 'seed controls,', len(ben), 'benign controls')
